@@ -54,6 +54,10 @@ CLAIMED = {
     'C16': ('other', 'Relational and post-condition clauses (defined, >= 0, > 0 for non-empty layers, monotone in size and bit-widths, depthwise = '
             'generic per group, exact rounding helpers with pass-through gradients, rejection of unsupported precisions) of every function '
             'registered in the cost specifications over all valid relaxed layer descriptions; see evidence.not_decided for what is left open.', '3 C16'),
+    'C17': ('other', 'Bounded stand-in (never counted as proved): state_dict() -> load_state_dict() into a freshly constructed wrapper with the real constructors and conversion '
+            'pipelines on one enumerated architecture per method; every state entry an arbitrary real (MPS: selection coefficients and temperatures), temperature annealing as '
+            'search action; no missing / unexpected keys, identical outputs, cost, summary, exported network. One known finding (SuperNet temperature lives outside the state_dict). '
+            'The closed-world clause over all attributes and actions is not decided.', '0-bis.7 C17'),
     'C18': ('other', 'Write frames of cost / get_cost / summary / cost_specification setter / export() of the three wrappers against the observables of the statement; '
             'specification switch-and-back; export twice. The conversion inside export() is an assumed contract.', '3 C18'),
     'C19': ('proof', 'Post-conditions of the real BaseRegularizer.__call__ and DUCCIO.__init__/__call__ over all real costs, targets, strengths '
@@ -64,8 +68,6 @@ CLAIMED = {
             'optimize_prec_assignment is not decided.', '3 C20'),
 }
 NA = {
-    'C17': 'torch state_dict / load_state_dict semantics over a module tree plus a closed-world claim about all attributes: not expressible as '
-           'per-function contracts',
 }
 
 checks = []
